@@ -451,6 +451,26 @@ def replay_line_range(model, r):
         if out != want:
             changed = [i + 1 for i in range(min(len(out), n)) if out[i] != src.split('\n')[i]]
             findings.append('selection [%d,%d]: lines changed %r' % (k, k, changed))
+    # the same in an out-of-line module file (its text does not start at position 0 of the source map), with items of different lengths
+    d = os.path.join(BUILD, 'scratch', 'c17l-%d' % os.getpid())
+    # (line lengths and the length of the root file are swept: a position computed against the wrong origin lands on some byte of the module file)
+    for root_pad, name_len in [(rp_, nl) for rp_ in range(0, 5) for nl in range(1, 5)]:
+        widths = (root_pad, name_len)
+        shutil.rmtree(d, ignore_errors=True)
+        os.makedirs(d)
+        lines = ['fn %s( ) {}' % (chr(ord('a') + i) * name_len) for i in range(3)]
+        msrc = '\n'.join(lines) + '\n'
+        open(os.path.join(d, 'lib.rs'), 'w').write('mod foo;%s\n' % ((' //' + 'x' * (root_pad - 3)) if root_pad >= 3 else ' ' * 0))
+        for k in range(1, len(lines) + 1):
+            open(os.path.join(d, 'foo.rs'), 'w').write(msrc)
+            pr = subprocess.run([rf, '--unstable-features', '--file-lines', '[{"file":"%s","range":[%d,%d]}]' % (os.path.join(d, 'foo.rs'), k, k), 'lib.rs'],
+                                capture_output=True, text=True, env=run_env(), timeout=60, cwd=d)
+            got = open(os.path.join(d, 'foo.rs')).read().split('\n')
+            want = [ln.replace('( )', '()') if i + 1 == k else ln for i, ln in enumerate(lines)] + ['']
+            if got != want:
+                changed = [i + 1 for i in range(min(len(got), len(lines))) if got[i] != lines[i]]
+                findings.append('module file, selection [%d,%d], item lengths %r: lines changed %r' % (k, k, widths, changed))
+    shutil.rmtree(d, ignore_errors=True)
     return {'reproduced': bool(findings), 'detail': findings[:4]}
 
 
